@@ -261,6 +261,10 @@ def tasks(tier, seed):
         out.append({"key": f"roundtrip/{p}/{m}/{via}/{loader}", "kind": "roundtrip", "payload": p, "meta": m, "via": via, "loader": loader})
     for hist in (0, 1, 2):
         out.append({"key": f"sequence/history{hist}", "kind": "sequence", "history": hist, "saves": 3 if tier == "quick" else 4, "pool": 3})
+    # a save that FAILS half-way (metadata the JSON encoder rejects: a dictionary with a tuple key) before the first / between later saves:
+    # the results must still be readable and later saves must still work
+    for hist, pos in ((0, 0), (1, 1), (0, 2)):
+        out.append({"key": f"sequence-failing/history{hist}/at{pos}", "kind": "sequence", "history": hist, "saves": 3, "pool": 2, "failing": pos})
     # the same through save() (all savers, real side-effect files in the results folder) with run names that contain dots, differ only
     # after the last dot, or are prefixes of one another
     for hist, names in ((0, ["sweep_gamma0.5", "sweep_gamma0.25", "sweep_gamma0"]), (1, ["run.v1.0", "run.v1.1", "old0"]),
@@ -352,7 +356,23 @@ def _sequence(pk, params, inp, root):
     pool = list(params.get("names") or [f"name{i}" for i in range(params["pool"])])
     if params["history"] and not params.get("names"):
         pool[-1] = "old0"          # one pool name collides with an earlier run
+    failed = None
     for i in range(params["saves"]):
+        if params.get("failing") == i:
+            ob, _d, _a = _output(pk, inp, f"f{i}", "3x2", "plain", ids=via_save)
+            ob.parsed_args.bad_key = {(1, 2): "a dictionary key JSON cannot write"}
+            b0 = open(path, "rb").read() if os.path.exists(path) else None
+            try:
+                do_save("rejected-run", ob)
+                failed = {"raised": None}
+            except (TypeError, ValueError) as e:
+                failed = {"raised": type(e).__name__}
+            b1 = open(path, "rb").read() if os.path.exists(path) else None
+            failed["file_unchanged"] = b0 == b1
+            try:
+                failed["still_readable"] = sorted((_read_raw(pk, path) or {}).keys()) == sorted(ref.keys())
+            except Exception as e:  # noqa: BLE001
+                failed["still_readable"] = False
         name = pool[inp.choose(len(pool), f"name-of-save-{i}")]
         o, d, a = _output(pk, inp, f"s{i}", pays[(i + 2) % len(pays)], metas[(i + 1) % len(metas)], ids=via_save)
         produced = {"data": _entries(d), "actions": _entries(a), "meta_ref": _stringified(META[metas[(i + 1) % len(metas)]]())}
@@ -374,7 +394,7 @@ def _sequence(pk, params, inp, root):
         o = outs.get(nm)
         final[nm] = None if o is None else {"data": _entries(o.data), "actions": _entries(o.actions), "meta": dict(vars(o.parsed_args))}
     folder = os.path.dirname(path)
-    return {"steps": steps, "final": final, "ref": ref,
+    return {"steps": steps, "final": final, "ref": ref, "failed": failed,
             "leftovers": sorted(x for x in os.listdir(folder) if x != "data.json" and not (via_save and x in ("data_plots", "chosen_coalitions")))}
 
 
@@ -445,7 +465,7 @@ def _produced(pk, params, inp, root):
     got = _load(pk, path, name, "from_file")
     # at n=3 the candidate sets of the searches are structurally tied; which one wins is decided by rounding noise in the float64 run, so
     # the search results are excluded from the symbolic-vs-float cross-check (keys ...T); the claims compare them within each world
-    t = "" if what == "solve" else "T"
+    t = "" if (what == "solve" and params.get("solver") == "largest") else "T"
     return {"orig" + t: {"data": _entries(gaps), "actions": _entries(acts)}, "got" + t: got, "names": sorted(_read_raw(pk, path).keys())}
 
 
@@ -543,6 +563,10 @@ def claims(params, inp, out, lg):
         cl.append((f"final-entry-is-the-first-save:{nm}:actions", ok and _same_matrix(lg, ref["actions"], got["actions"]), "C19/sequence/final-actions"))
         cl.append((f"final-entry-is-the-first-save:{nm}:metadata", ok and _meta_equal(got["meta"], ref["meta_ref"]), "C19/sequence/final-metadata"))
     cl.append(("no-stray-files-left-next-to-the-results", out["leftovers"] == [], "C19/sequence/leftovers"))
+    if out.get("failed") is not None:
+        f = out["failed"]
+        cl.append(("a-rejected-save-leaves-the-results-as-they-were", f["file_unchanged"] is True and f["still_readable"] is True and f["raised"] is not None,
+                   "C19/sequence/failed-save-damages-results"))
     return cl
 
 
@@ -566,7 +590,7 @@ def test_vectors(params):
     for t in range(3):
         rnd = random.Random(f"c19/{params['key']}/{t}")
         d = {}
-        for tag in ["p"] + [f"h{i}" for i in range(3)] + [f"s{i}" for i in range(4)]:
+        for tag in ["p"] + [f"h{i}" for i in range(3)] + [f"s{i}" for i in range(4)] + [f"f{i}" for i in range(4)]:
             for k in range(24):
                 # awkward doubles on purpose: thirds, tiny, huge, negative zero neighbours, integers
                 d[f"{tag}d_{k}"] = rnd.choice([Fraction(rnd.randint(-50, 50), 3), Fraction(1, 10 ** 12), Fraction(10 ** 15 + 1, 7), Fraction(rnd.randint(0, 9))])
